@@ -122,6 +122,26 @@ struct Params {
     /// symmetric explicit-peer edges
     explicit: Vec<(usize, usize)>,
     seed: u64,
+    /// nodes running with `validate_messages()`
+    valid: Vec<usize>,
+    /// peer scoring active (default parameters) on every node
+    score: bool,
+    /// when the application reports its verdict: 'q' one pending verdict at a time, each time the
+    /// whole network is quiet (every copy on its way has arrived: the widest window);
+    /// 'i' immediately after the delivery; 'r' at random points
+    policy: char,
+    /// the application sometimes rejects / ignores
+    rejects: bool,
+}
+
+/// a message handed to the application of a validating node, awaiting its verdict
+struct Pending {
+    v: usize,
+    mid: usize,
+    id: gs::MessageId,
+    src: PeerId,
+    /// duplicates received since (the window was hit)
+    dups: usize,
 }
 
 #[derive(Clone, Debug)]
@@ -129,6 +149,8 @@ enum Entry {
     Send { u: usize, w: usize, mid: usize },
     Recv { v: usize, u: usize, mid: usize },
     Deliver { v: usize, u: usize, mid: usize },
+    /// `report_message_validation_result` on node v: acc = a/r/i, ok = its return value
+    Verdict { v: usize, mid: usize, acc: char, ok: bool },
 }
 
 struct World {
@@ -146,6 +168,9 @@ struct World {
     strays: usize,
     /// the network did not become quiescent
     stalled: bool,
+    pending: Vec<Pending>,
+    /// Accept verdicts issued after at least one duplicate had arrived in the window
+    window_hits: usize,
 }
 
 const UNKNOWN: usize = 9999;
@@ -175,8 +200,15 @@ impl World {
             } else {
                 gs::MessageAuthenticity::Signed(key.clone())
             };
+            if p.valid.contains(&i) {
+                b.validate_messages();
+            }
             let cfg = b.build().expect("gossipsub config");
-            let beh = gs::Behaviour::new(auth, cfg).expect("behaviour");
+            let mut beh = gs::Behaviour::new(auth, cfg).expect("behaviour");
+            if p.score {
+                beh.with_peer_score(gs::PeerScoreParams::default(), gs::PeerScoreThresholds::default())
+                    .expect("peer score");
+            }
             let sw = Swarm::new(
                 transport(&key),
                 beh,
@@ -198,6 +230,8 @@ impl World {
             msgs: vec![],
             strays: 0,
             stalled: false,
+            pending: vec![],
+            window_hits: 0,
         };
         w.setup(rng);
         w
@@ -289,6 +323,11 @@ impl World {
                 }
                 tap::Tap::Recv { from, id } => {
                     let (u, mid) = (self.node_of(&from), self.mid_of(&id));
+                    for p in self.pending.iter_mut() {
+                        if p.v == i && p.mid == mid {
+                            p.dups += 1;
+                        }
+                    }
                     self.log.push(Entry::Recv { v: i, u, mid });
                 }
             }
@@ -308,6 +347,9 @@ impl World {
                     self.log.push(Entry::Deliver { v: i, u, mid });
                     if mid < self.msgs.len() {
                         self.msgs[mid].1.push(i);
+                        if self.p.valid.contains(&i) {
+                            self.pending.push(Pending { v: i, mid, id: message_id, src: propagation_source, dups: 0 });
+                        }
                     }
                 }
                 true
@@ -315,6 +357,31 @@ impl World {
             Poll::Ready(None) => false,
             Poll::Pending => false,
         }
+    }
+
+    /// the application of a validating node reports its verdict on pending message `k`
+    fn issue(&mut self, k: usize, rng: &mut Rng) {
+        let p = self.pending.remove(k);
+        let acc = if self.p.rejects && rng.chance(1, 8) {
+            if rng.bool() {
+                'r'
+            } else {
+                'i'
+            }
+        } else {
+            'a'
+        };
+        let a = match acc {
+            'a' => gs::MessageAcceptance::Accept,
+            'r' => gs::MessageAcceptance::Reject,
+            _ => gs::MessageAcceptance::Ignore,
+        };
+        let ok = self.swarms[p.v].behaviour_mut().report_message_validation_result(&p.id, &p.src, a);
+        if acc == 'a' && ok && p.dups > 0 {
+            self.window_hits += 1;
+        }
+        self.log.push(Entry::Verdict { v: p.v, mid: p.mid, acc, ok });
+        self.drain_taps(p.v);
     }
 
     /// one round: every swarm, in random order, polled a random number of times
@@ -325,7 +392,28 @@ impl World {
         for i in order {
             let burst = 1 + rng.below(6);
             for _ in 0..burst {
-                if self.poll_one(i) {
+                let p = self.poll_one(i);
+                match self.p.policy {
+                    'i' => {
+                        while !self.pending.is_empty() {
+                            self.issue(0, rng);
+                            progressed = true;
+                        }
+                    }
+                    'r' => {
+                        let mut k = 0;
+                        while k < self.pending.len() {
+                            if rng.chance(1, 4) {
+                                self.issue(k, rng);
+                                progressed = true;
+                            } else {
+                                k += 1;
+                            }
+                        }
+                    }
+                    _ => {}
+                }
+                if p {
                     progressed = true;
                 } else {
                     break;
@@ -349,7 +437,14 @@ impl World {
             } else {
                 idle += 1;
                 if idle >= 2 {
-                    return;
+                    // the network is quiet: every copy on its way has arrived.  Now (and only
+                    // now, under policy 'q') one application reports its verdict.
+                    if self.pending.is_empty() {
+                        return;
+                    }
+                    let k = rng.usize(self.pending.len());
+                    self.issue(k, rng);
+                    idle = 0;
                 }
             }
             if self.log.len() - start > 20_000 {
@@ -579,6 +674,31 @@ impl Runner {
                     used[k] = true;
                     self.op(format!("recvx {mid} {u} {v}"), "first -".into());
                 }
+                Entry::Verdict { v, mid, acc, ok } => {
+                    used[k] = true;
+                    let mut fwd = vec![];
+                    let mut j = k + 1;
+                    while j < log.len() {
+                        match &log[j] {
+                            Entry::Send { u: su, w, mid: m } if *su == v && *m == mid => {
+                                fwd.push(*w);
+                                used[j] = true;
+                                j += 1;
+                            }
+                            _ => break,
+                        }
+                    }
+                    fwd.sort();
+                    let kind = if exact == Some(mid) { "verdict" } else { "verdictx" };
+                    let imp = if ok && acc == 'a' {
+                        format!("fwd {}", hcore::list(&fwd))
+                    } else if fwd.is_empty() {
+                        if ok { "dropped".to_string() } else { "none".to_string() }
+                    } else {
+                        format!("{}+{}", if ok { "dropped" } else { "none" }, hcore::list(&fwd))
+                    };
+                    self.op(format!("{kind} {mid} {v} {acc}"), imp);
+                }
             }
         }
     }
@@ -620,7 +740,9 @@ fn gen_adj(rng: &mut Rng, n: usize, class: &str) -> Vec<BTreeSet<usize>> {
 
 fn gen_params(rng: &mut Rng, class: &str, seed: u64) -> Params {
     let n = 5 + rng.usize(6);
-    let adj = gen_adj(rng, n, class);
+    // validation cases need two mesh paths to the same node: half of them on dense graphs
+    let adj_class = if class.starts_with("valid") && rng.bool() { "dense" } else { class };
+    let adj = gen_adj(rng, n, adj_class);
     let mesh = match (class, rng.below(3)) {
         ("sparse", 0) => (2, 1, 3, 0),
         ("sparse", 1) => (2, 2, 2, 1),
@@ -652,6 +774,23 @@ fn gen_params(rng: &mut Rng, class: &str, seed: u64) -> Params {
         adj,
         explicit,
         seed,
+        valid: match class {
+            "valid" => (0..n).collect(),
+            "validmix" => {
+                let mut v: Vec<usize> = (0..n).filter(|_| rng.bool()).collect();
+                if v.is_empty() {
+                    v.push(rng.usize(n));
+                }
+                v
+            }
+            _ => vec![],
+        },
+        score: class.starts_with("valid") && rng.bool(),
+        policy: match class {
+            "validmix" => *rng.pick(&['q', 'i', 'r', 'r']),
+            _ => 'q',
+        },
+        rejects: class == "validmix",
     }
 }
 
@@ -659,7 +798,7 @@ fn header(p: &Params) -> String {
     let adj: Vec<Vec<usize>> = p.adj.iter().map(|s| s.iter().copied().collect()).collect();
     let exp: Vec<String> = p.explicit.iter().map(|(a, b)| format!("{a}-{b}")).collect();
     format!(
-        "n={} flood={} auth={} meshn={} mesh={}.{}.{}.{} subfirst={} hbms={} seed={} adj={} explicit={}",
+        "n={} flood={} auth={} meshn={} mesh={}.{}.{}.{} subfirst={} hbms={} seed={} adj={} explicit={} val={} score={} policy={} rejects={}",
         p.n,
         p.flood as u8,
         if p.anon { "a" } else { "s" },
@@ -672,7 +811,11 @@ fn header(p: &Params) -> String {
         p.hb_ms,
         p.seed,
         lists(&adj),
-        if exp.is_empty() { "-".to_string() } else { exp.join(",") }
+        if exp.is_empty() { "-".to_string() } else { exp.join(",") },
+        hcore::list(&p.valid),
+        p.score as u8,
+        p.policy,
+        p.rejects as u8
     )
 }
 
@@ -714,6 +857,13 @@ fn parse_header(h: &[String]) -> Option<Params> {
         adj,
         explicit,
         seed: kv(h, "seed")?.parse().ok()?,
+        valid: match kv(h, "val") {
+            None | Some("-") => vec![],
+            Some(l) => l.split(',').filter_map(|x| x.parse().ok()).filter(|x| *x < n).collect(),
+        },
+        score: kv(h, "score") == Some("1"),
+        policy: kv(h, "policy").and_then(|s| s.chars().next()).unwrap_or('q'),
+        rejects: kv(h, "rejects") == Some("1"),
     })
 }
 
@@ -728,7 +878,11 @@ enum Cmd {
 fn gen_script(rng: &mut Rng, p: &Params, class: &str, msgs: u64) -> Vec<Cmd> {
     let mut s = vec![Cmd::Hb(2 + rng.below(4)), Cmd::Snap];
     for _ in 0..msgs {
-        let mode = if class == "hbmix" && rng.chance(2, 3) { 'h' } else { 'e' };
+        let mode = if (class == "hbmix" && rng.chance(2, 3)) || (class == "validmix" && rng.chance(1, 4)) {
+            'h'
+        } else {
+            'e'
+        };
         s.push(Cmd::Pub(rng.usize(p.n), mode));
         if mode == 'h' {
             // meshes may have moved
@@ -778,7 +932,9 @@ fn run_case(out: &mut Out, idx: u64, class: &str, p: Params, script: &[Cmd]) {
         r.op("livelock".into(), "-".into());
     }
     tap::disable();
-    let nt = r.nontrivial && r.w.strays == 0;
+    // a validation case counts only if at least one Accept came after a duplicate had arrived
+    // while the message was awaiting it (the window of the strengthened no-echo clause was hit)
+    let nt = r.nontrivial && r.w.strays == 0 && (!class.starts_with("valid") || r.w.window_hits > 0);
     out.case(idx, &format!("{class} nt={} {hdr}", nt as u8));
     for l in &r.lines {
         out.raw(l);
@@ -790,7 +946,8 @@ fn run_case(out: &mut Out, idx: u64, class: &str, p: Params, script: &[Cmd]) {
     out.end();
 }
 
-const CLASSES: [&str; 8] = ["flood", "sparse", "mixed", "hbmix", "anon", "explicit", "dense", "sparse"];
+const CLASSES: [&str; 11] =
+    ["flood", "sparse", "mixed", "valid", "hbmix", "anon", "validmix", "explicit", "dense", "sparse", "valid"];
 
 pub fn run(args: &Args, out: &mut Out) {
     freeze_clock();
